@@ -9,6 +9,18 @@ FAMILY = ["euclidean", "squared_euclidean", "average_euclidean", "log_euclidean"
 
 def tie_free_points(rng, n, m, metric):
     dim = rng.randint(1, 4)
+    if rng.random() < 0.15:
+        # long feature vectors, with the class-separating information in the last few coordinates only
+        dim = rng.choice([32, 36, 40, 64, 65, 128, 130])
+        sc = 1.0
+        for _ in range(100):
+            base = [rng.uniform(-1, 1) for _ in range(dim)]
+            X = [[b + rng.uniform(-1e-3, 1e-3) for b in base[:dim - 4]] + [rng.uniform(-10, 10) for _ in range(4)] for _ in range(n + m)]
+            D = metric_matrix(metric, X)
+            allv = [D[a][b] for a in range(n) for b in range(a + 1, n)] + [D[a][q] for a in range(n) for q in range(n, n + m)]
+            if len(set(allv)) == len(allv) and min(allv) > 0:
+                return X, D
+        return None, None
     # the algorithms are order-only, so the scale of the features must not matter: a third of the sets are tiny
     sc = rng.choice([1.0, 1.0, 1e-6, 1e-11, 1e5, 1e7])   # also coordinates in metres: distances beyond MAX_ARC_WEIGHT
     for _ in range(100):
